@@ -177,6 +177,11 @@ def run_core(prop, tier, seed, t0, replay_item=None):
                                     timeout=2400)
     by_id = {it["id"]: it for it in items}
     stats = collate_replay(rep, prop, by_id, res, crashed, runner)
+    # ---- binding B: record executions the model did not choose, validate them with TLC
+    tstats = {"traces": 0, "events": 0, "states": 0}
+    if replay_item is None and prop in TRACE_PROPS:
+        n, length = (24, 40) if tier == "quick" else (400, 120)
+        tstats = trace_part(rep, prop, runner, seed, n, length, tier)
     nontrivial = set()
     for it in items:
         r = res.get(it["id"])
@@ -185,7 +190,9 @@ def run_core(prop, tier, seed, t0, replay_item=None):
     sample = items[0] if items else None
     rep.coverage = {
         "states": mc["distinct"] + 0, "transitions": mc["generated"] + gen_states,
-        "traces_validated_against_impl": stats["executed_behaviours"],
+        "traces_validated_against_impl": stats["executed_behaviours"] + tstats["traces"],
+        "impl_traces_validated_by_tlc": tstats["traces"], "impl_trace_events": tstats["events"],
+        "spec_behaviours_replayed_on_impl": stats["executed_behaviours"],
         "samples": [{"cfg": sample["cfg"], "names": sample["conc"]["names"],
                      "calls": [s["call"] for s in sample["steps"]][:12],
                      "expected_after_last": sample["steps"][-1]["vis"][:6]}] if sample else [],
@@ -204,6 +211,43 @@ def run_core(prop, tier, seed, t0, replay_item=None):
         "the independent tar scan (archive/tar) and a second SQLite connection are trusted observers",
     ]
     return finish(rep, t0)
+
+
+TRACE_PROPS = ["C01", "C02", "C04", "C05", "C07", "C12", "C13"]
+
+
+def trace_part(rep, prop, runner, seed, n, length, tier, specs=None):
+    from . import traces
+    if specs is None:
+        divs, problems, tstats, trs = traces.record_and_validate(runner, prop, seed, n, length, tier)
+    else:
+        divs, problems, tstats, trs = traces.run_specs(runner, prop, specs)
+    log("[%s] trace validation: %d traces / %d events accepted step by step by TLC (%d TLC runs, %.0fs), %d divergences" % (
+        prop, tstats["traces"], tstats["events"], tstats["tlc_runs"], tstats["wall_s"], len(divs)))
+    for d in divs:
+        mine = [c for c in d["cats"] if prop in traces.CATEGORY_PROPS.get(c, [])]
+        if prop == "C12" and d["call"]["op"] not in ("RemoveAll", "Rename"):
+            mine = []
+        if not mine:
+            log("[%s] note: trace %s diverges at event %d (%s) in %s - not this property's concern" % (prop, d["id"], d["event"], d["call"], d["cats"]))
+            continue
+        f = {"prop": prop, "call": "%s(p=/%s q=/%s" % (d["call"]["op"], "/".join(d["call"]["p"]), "/".join(d["call"]["q"])),
+             "msg": "recorded execution is not a behaviour of the specification: after event %d the real state differs in %s %s" % (d["event"], mine, d.get("odd", ""))}
+        k = match_known(prop, f, d["spec"])
+        if k:
+            rep.known[k["id"]] = "%s (%s)" % (k["what"], k["id"])
+            continue
+        rep.violation("trace %s event %d %s -> %s: real state differs from the specification in %s %s" % (
+            d["id"], d["event"], d["call"], d.get("cls"), mine, d.get("odd", "")),
+            {"kind": "trace", "prop": prop, "spec": d["spec"], "event": d["event"], "cats": d["cats"]})
+    hard = [p for p in problems if p["kind"] in ("hang", "crash")]
+    for p in hard:
+        if prop in ("C10", "C02"):
+            rep.violation("recording trace %s: %s %s" % (p["id"], p["kind"], p["why"][:2000]), {"kind": "trace", "prop": prop, "spec": p.get("spec")})
+    soft = [p for p in problems if p["kind"] == "infra"]
+    if (soft or (hard and prop not in ("C10", "C02"))) and not rep.violations:
+        raise Infra("trace recording problems: %s" % [(p["id"], p["kind"], p["why"][:300]) for p in (soft + hard)[:3]])
+    return tstats
 
 
 def collate_replay(rep, prop, by_id, res, crashed, runner):
@@ -266,5 +310,13 @@ def replay(prop, path):
         it = payload["item"]
         it["oracles"] = [prop]
         return run_core(prop, "quick", 0, t0, replay_item=it)
+    if payload.get("kind") == "trace" and payload.get("spec"):
+        rep = Report(prop, "quick", 0, "model_checking")
+        runner = core.build_runner()
+        core.ensure_keys(runner)
+        ts = trace_part(rep, prop, runner, 0, 0, 0, "quick", specs=[payload["spec"]])
+        rep.coverage = {"states": max(1, ts["states"]), "transitions": max(1, ts["events"]), "traces_validated_against_impl": ts["traces"],
+                        "samples": [payload["spec"]["id"]]}
+        return finish(rep, t0)
     print("unknown replay kind", payload.get("kind"), file=sys.stderr)
     return 2
